@@ -39,6 +39,8 @@ def solutionMut (i : Ind O) (w : Option Nat) : Ind O := ⟨w.getD i.sol, none⟩
 def intoSolution (i : Ind O) : Nat := i.sol
 /-- `Clone::clone`. -/
 def clone (i : Ind O) : Ind O := ⟨i.sol, i.obj⟩
+/-- `Clone::clone_from(&mut self, source)` (the derived behaviour: `*self = source.clone()`). -/
+def cloneFrom (_tgt src : Ind O) : Ind O := ⟨src.sol, src.obj⟩
 /-- `is_evaluated()`. -/
 def isEvaluated (i : Ind O) : Bool := i.obj.isSome
 /-- `get_objective()`. -/
@@ -62,6 +64,11 @@ def asSolutionsMut : List (Ind O) → List (Option Nat) → List (Ind O)
 def intoSolutions (p : List (Ind O)) : List Nat := p.map Ind.intoSolution
 /-- `into_individuals()`: `new_unevaluated` on every solution. -/
 def intoIndividuals (ss : List Nat) : List (Ind O) := ss.map Ind.newUnevaluated
+
+/-- `Vec::clone_from(&mut self, source)`: truncate to the source's length, `clone_from` element-wise on
+the common prefix, extend with clones of the rest. -/
+def vecCloneFrom (p src : List (Ind O)) : List (Ind O) :=
+  List.zipWith Ind.cloneFrom p src ++ (src.drop p.length).map Ind.clone
 
 inductive SingleErr where
   | empty | tooMany (n : Nat)
@@ -272,6 +279,9 @@ inductive ApiOp (O : Type) where
   | solMut (i : Nat) (w : Option Nat)
   | intoSol (i : Nat)                -- removes member i
   | clone (i : Nat)                  -- pushes a clone
+  | cloneFrom (i j : Nat)            -- `p[i].clone_from(&p[j])`
+  | vecCloneFrom (src : List (Ind O))    -- `p.clone_from(&src)` on the whole `Vec`
+  | sliceCloneFrom (src : List (Ind O))  -- `p.clone_from_slice(&src)` (panics on a length mismatch)
   | isEval (i : Nat) | getObj (i : Nat) | objective (i : Nat)
   | eq (i j : Nat)
   | asSols
@@ -324,6 +334,13 @@ def apiStep (f : Nat → O) (p : List (Ind O)) : ApiOp O → List (Ind O) × Api
     match p[i]? with
     | some x => (p ++ [x.clone], .unit)
     | none => (p, .skip)
+  | .cloneFrom i j =>
+    match p[i]?, p[j]? with
+    | some x, some y => (p.set i (x.cloneFrom y), .unit)
+    | _, _ => (p, .skip)
+  | .vecCloneFrom src => (vecCloneFrom p src, .unit)
+  | .sliceCloneFrom src =>
+    if p.length = src.length then (List.zipWith Ind.cloneFrom p src, .unit) else (p, .panic)
   | .isEval i =>
     match p[i]? with
     | some x => (p, .bool x.isEvaluated)
